@@ -112,7 +112,11 @@ func FindArrayIndex(str string) ([][]int, error) {
 		switch r {
 		case '\\':
 			{
-				i++
+				// a backslash takes the next character with it inside a quoted string; inside a
+				// back-quoted identifier (and outside quotes) it is a character like any other
+				if hold != nil && *hold != '`' {
+					i++
+				}
 			}
 		case '"':
 			{
